@@ -11,6 +11,7 @@ tlbparsers_tx.py and only adds:
               S.load_hashmap(N, value_deserializer=T.deserialize)   -> Rd.loadHashmap N (T false) sp S   (inline `Hashmap N X`)
               S.load_hashmap_aug_e(N, x_deserializer=X, y_deserializer=Y) (keywords or positions; X, Y as above)
                                                                     -> Rd.loadHashmapAugE N X Y sp S     (`(dict, extras)` tuple)
+              S.load_dict(N)                                        -> Rd.loadDictRaw N S   (values = raw Slices, presence only)
               <S.load_ref().begin_parse()>.load_hashmap(N, key_deserializer=lambda src: Builder().store_bits(src).to_slice().load_int(N),
                    value_deserializer=lambda src: src.load_ref().begin_parse())
                                                                     -> Rd.loadHashmapS N Rd.refSlice (signed keys, Slice values)
@@ -51,7 +52,7 @@ CLASSES = [
     ('account', 'AccountStorage'), ('account', 'Account'), ('account', 'ShardAccount'),
     ('config', 'ValidatorSet'),
     ('block', 'ShardAccounts'), ('block', 'OldMcBlocksInfo'), ('block', 'BlockCreateStats'),
-    ('block', 'ConfigParams'), ('block', 'McStateExtra'),
+    ('block', 'ConfigParams'), ('block', 'McStateExtra'), ('block', 'ShardStateUnsplit'),
 ]
 
 ERASED_KW = {('ShardAccount', 'cell')}
@@ -146,6 +147,9 @@ class FnBlk(TX.FnTx):
                 raise Untranslatable(f'{f.attr}(N, …) expected')
             n = const_int(e.args[0], env)
             t = ctx.fresh()
+            if not e.keywords and f.attr == 'load_dict':
+                out.append(f'let ({t}, {s.var}) ← Rd.loadDictRaw {n} {s.var}')
+                return V(t, 'dict')
             if len(e.keywords) != 1 or e.keywords[0].arg != 'value_deserializer':
                 raise Untranslatable(f'{f.attr}(N, value_deserializer=…) expected')
             rd = self.value_reader(e.keywords[0].value, env)
